@@ -246,6 +246,14 @@ def readTrees (s : Store) (n : Nat) : List (List String) → Store × List Nat
     let r2 := readTrees a.1 n rest
     (r2.1, a.2 :: r2.2)
 
+/-- a source with trees read into tree list `l`: the labels `pre` of a TAXA-like block are resolved first (first match, as
+`require_taxon`), then each tree statement's labels through the readers' symbol table (last match); the new trees are appended -/
+def readInto (s : Store) (l : Nat) (pre : List String) (docs : List (List String)) : Store :=
+  let n := (s.tl l).ns
+  let s1 := (requireList s n (s.ns n).cs pre).1
+  let r := readTrees s1 n docs
+  setTrees r.1 l ((r.1.tl l).trees ++ r.2)
+
 /-- deep copy of a tree list's trees through one memo: a tree that occurs twice is copied once -/
 def copyTrees (s : Store) (n : Nat) (m : Memo) (seen : List (Nat × Nat)) : List Nat → Store × List Nat
   | [] => (s, [])
@@ -377,6 +385,10 @@ inductive Op where
   | dsread (d : Nat) (taxa : List String) (rows : Option (List String)) (trees : Option (List (List String)))
   | newtreeseed (l t : Nat)                             -- `tl.new_tree(seed_node=<nodes built elsewhere on the taxa of tree t>)`
   | treeseed (n : Option Nat) (t : Nat)                 -- `Tree(seed_node=<such nodes>[, taxon_namespace=n])`
+  | readx (l : Nat) (pre : List String) (docs : List (List String))   -- `tl.read` of a source with a TAXA block (NEXUS)
+  | tlget (n : Nat) (pre : List String) (docs : List (List String))   -- `TreeList.get(..., taxon_namespace=n)`
+  | tget (n : Nat) (pre : List String) (labels : List String)         -- `Tree.get(..., taxon_namespace=n)`
+  | mget (n : Nat) (last : Bool) (pre rows : List String)             -- `CharacterMatrix.get(..., taxon_namespace=n)`
   | taadd (n t : Nat)                                   -- `TreeArray(taxon_namespace=n).add_tree(t)`: holds no tree, refuses a foreign one
 deriving Repr
 
@@ -528,6 +540,16 @@ def step (s : Store) : Op → Store × Status
         setTrees r.1 a.2 r.2
     (s3, .ok)
   | .taadd n t => (s, if (s.tree t).ns = n then .ok else .nsIdentity)
+  | .readx l pre docs => (readInto s l pre docs, .ok)
+  | .tlget n pre docs => (readInto (allocTl s n).1 (allocTl s n).2 pre docs, .ok)
+  | .tget n pre labels =>
+    let s1 := (requireList s n (s.ns n).cs pre).1
+    let r := requireLastList s1 n (s.ns n).cs labels
+    ((allocTree r.1 { ns := n, taxa := none :: r.2.map some }).1, .ok)
+  | .mget n last pre rows =>
+    let s1 := (requireList s n (s.ns n).cs pre).1
+    let r := if last then requireLastList s1 n (s.ns n).cs rows else requireList s1 n (s.ns n).cs rows
+    ((allocMat r.1 { ns := n, keys := mergeKeys [] r.2 }).1, .ok)
   | .newtreeseed l t =>
     -- `Tree(seed_node=nd, taxon_namespace=self.taxon_namespace)` ends with `update_taxon_namespace()`: the taxon objects stay
     let n := (s.tl l).ns
@@ -583,6 +605,8 @@ def idsOk (s : Store) : Op → Bool
   | .dsattach d n => decide (d < s.nDs) && decide (n < s.nNs)
   | .dsunify d n => decide (d < s.nDs) && onsOk s n
   | .taadd n t => decide (n < s.nNs) && decide (t < s.nTree)
+  | .readx l _ _ => decide (l < s.nTl)
+  | .tlget n _ _ | .tget n _ _ | .mget n _ _ _ => decide (n < s.nNs)
   | .newtreeseed l t => decide (l < s.nTl) && decide (t < s.nTree)
   | .treeseed n t => onsOk s n && decide (t < s.nTree)
 
@@ -642,7 +666,7 @@ def owner (s : Store) : Op → Bool
 /-- the addressed container exists -/
 def inRange (s : Store) : Op → Bool
   | .append l _ _ | .insert l _ _ _ | .setitem l _ _ | .setslice l _ _ _ | .extend l _ | .add l _ | .read l _ | .newtree l _
-  | .getslice l _ _ | .pop l _ | .remove l _ | .lclone l _ | .lmig l _ _ | .lrec l _ | .newtreeseed l _ => decide (l < s.nTl)
+  | .getslice l _ _ | .pop l _ | .remove l _ | .lclone l _ | .lmig l _ _ | .lrec l _ | .newtreeseed l _ | .readx l _ _ => decide (l < s.nTl)
   | .dsaddN d _ | .dsaddL d _ | .dsaddM d _ | .dsnewlist d | .dsnewmat d | .dsnewns d | .dsattach d _ | .dsdetach d
   | .dsunify d _ | .dsread d _ _ _ => decide (d < s.nDs)
   | _ => true
